@@ -88,7 +88,7 @@ def prim_le(a, b, same_order=True):
     if ka == "vec" and kb == "vany":
         return b[1] == "bv" or b[1] == a[1]
     if ka == "vec" and kb == "vec":
-        return a[1] != "bv" and b[1] == "bv" and a[3] == b[3] and (a[2] == b[2])
+        return a[1] != "bv" and b[1] == "bv" and a[3] == b[3] and ((a[2] == b[2]) if same_order else b[2] == "down")
     if ka == "vany" and kb == "vany":
         return b[1] == "bv"
     if ka == "arr" and kb == "arrany":
@@ -96,18 +96,19 @@ def prim_le(a, b, same_order=True):
     return False
 
 
-def wrapped_le(a, b):
-    return a == b or (is_vec(a) and is_vec(b) and prim_le(a, b))
+def wrapped_le(a, b, same_order=True):
+    return a == b or (is_vec(a) and is_vec(b) and prim_le(a, b, same_order))
 
 
 def q_le(q, q2):
     return q == q2 or (q == "port" and q2 == "sig")
 
 
-def doc_le(a, b):
+def doc_le(a, b, same_order=True):
+    """same_order=False: the coded treatment of UPTO shapes (f[0:n-1] derives from the DOWNTO BitVector[n])"""
     qa, qb = a[0] in ("q", "qany"), b[0] in ("q", "qany")
     if not qa and not qb:
-        return prim_le(a, b)
+        return prim_le(a, b, same_order)
     if qa != qb:
         return False
     if b[0] == "qany":
@@ -116,7 +117,7 @@ def doc_le(a, b):
         return False
     same = a[1] == b[1] and a[2] == b[2]
     port_sig = a[1] == "port" and b[1] == "sig" and b[2] is None
-    return (same or port_sig) and wrapped_le(a[3], b[3])
+    return (same or port_sig) and wrapped_le(a[3], b[3], same_order)
 
 
 def has_up(e):
@@ -127,6 +128,20 @@ def has_up(e):
     if e[0] == "q":
         return has_up(e[3])
     return False
+
+
+def equiv(base, param):
+    """the documented-form expression a re-subscription  base[param]  has to denote (the family's class)"""
+    k = param[0]
+    if k == "w":
+        return ["vec", base[1], "down", param[1]]
+    if k == "a":
+        return ["arr", param[1], param[2]]
+    return ["q", base[1], param[1], param[2]]
+
+
+def item_expr(it):
+    return it[1] if it[0] == "t" else equiv(it[1], it[2])
 
 
 def should_reject(e):
@@ -291,13 +306,12 @@ def implied_ops(sc):
                 hi, lo = s[1], s[2]
                 if lo > hi:
                     break
+                if not (0 <= lo and hi < len(cells)):   # asserted before BitVector[width] is subscripted
+                    break
                 width = hi - lo + 1
                 ops.append(["vec", "bv", "down", width])
-                sub = cells[lo:hi + 1]           # python slice semantics, as coded
-                if len(sub) != width:
-                    break
                 ops.append(["q", q, d, ["vec", "bv", "down", width]])
-                cells, kind = sub, "bv"
+                cells, kind = cells[lo:hi + 1], "bv"
             elif k == "ix":
                 if not (0 <= s[1] < len(cells)):
                     break
@@ -328,9 +342,31 @@ def gen_seq(rng, n_lo, n_hi, views=True):
                 e = relative(rng, base)
             pool.append(e)
             items.append(["t", e])
+    if rng.random() < 0.08:
+        pair = gen_resub(rng)
+        at = rng.randint(0, len(items))
+        items[at:at] = pair
+        pool += [pair[0][1], equiv(pair[1][1], pair[1][2])]
     if rng.random() < 0.5:
         items += [["t", e] for e in pool]                  # everything once more at the end
     return {"items": items}
+
+
+def gen_resub(rng):
+    """[["t", base], ["r", base, param]] : subscript an already parametrised class again"""
+    r = rng.random()
+    if r < 0.45:
+        base = ["vec", rng.choice(FAMS), "down", rng.choice(WIDTHS)]
+        param = ["w", rng.choice(WIDTHS + [4])]
+    elif r < 0.85:
+        q = rng.choice(QS)
+        d = rng.choice(DIRS) if q == "port" else None
+        base = ["q", q, d, gen_prim(rng)]
+        param = ["q", rng.choice(DIRS) if q == "port" else None, gen_prim(rng)]
+    else:
+        base = ["arr", gen_prim(rng, 1), rng.choice([1, 2, 3])]
+        param = ["a", gen_prim(rng, 1), rng.choice([1, 2, 3])]
+    return [["t", base], ["r", base, param]]
 
 
 def relative(rng, e):
@@ -380,6 +416,22 @@ def corpus():
     seqs.append([["leaf", "bool"], ["leaf", "int"], ["q", "sig", None, ["leaf", "bool"]],
                  ["q", "var", None, ["leaf", "int"]], ["q", "port", "in", ["leaf", "bit"]]])
     out = [{"items": [["t", e] for e in s]} for s in seqs]
+    # subscripting an already parametrised class (std.reg does it: underlying[arg.width])
+    B3, B4, U8 = ["vec", "bv", "down", 3], ["vec", "bv", "down", 4], ["vec", "u", "down", 8]
+    SBV, SB = ["q", "sig", None, ["vany", "bv"]], ["q", "sig", None, ["leaf", "bit"]]
+    out.append({"items": [["t", B3], ["r", B3, ["w", 4]], ["t", B4], ["t", B3]]})
+    out.append({"items": [["t", B4], ["t", B3], ["r", B3, ["w", 4]], ["t", B4]]})
+    out.append({"items": [["t", U3], ["r", U3, ["w", 8]], ["t", U8], ["t", ["vec", "bv", "down", 8]]]})
+    out.append({"items": [["t", B3], ["r", B3, ["w", 3]]]})
+    out.append({"items": [["t", SBV], ["r", SBV, ["q", None, ["leaf", "bit"]]], ["t", SB]]})
+    out.append({"items": [["t", ["q", "port", "in", ["leaf", "bit"]]],
+                          ["r", ["q", "port", "in", ["leaf", "bit"]], ["q", "out", B3]],
+                          ["t", ["q", "port", "out", B3]], ["t", ["q", "sig", None, B3]]]})
+    out.append({"items": [["t", ["q", "var", None, ["vec", "u", "down", 4]]],
+                          ["r", ["q", "var", None, ["vec", "u", "down", 4]], ["q", None, ["vec", "u", "down", 2]]],
+                          ["t", ["q", "var", None, ["vec", "u", "down", 2]]]]})
+    out.append({"items": [["t", ["arr", ["leaf", "bit"], 2]], ["r", ["arr", ["leaf", "bit"], 2], ["a", ["leaf", "bit"], 3]],
+                          ["t", ["arr", ["leaf", "bit"], 3]]]})
     # views: the chain of the task text, nested slices + iteration, casts of casts
     out.append({"items": [["v", {"q": "sig", "dir": None, "fam": "bv", "w": 8, "init": "10100110",
                                  "chains": [[], [["u"], ["sl", 5, 2], ["bv"], ["ix", 1]], [["sl", 5, 2]],
@@ -422,6 +474,8 @@ def type_case(seq, res):
     for it in seq["items"]:
         if it[0] == "t":
             ops.append((True, it[1]))
+        elif it[0] == "r":
+            ops += [(False, it[1]), (True, item_expr(it))]   # the family's class (only compared when the spec holds)
         else:
             ops += [(False, e) for e in implied_ops(it[1])]
     ops_t = "[" + "; ".join(f"({'true' if o else 'false'}, {texpr_coq(e)})" for o, e in ops) + "]"
@@ -487,10 +541,13 @@ def view_case(sc, vr):
 def spec_types(seq, res, obsv):
     """returns list of (key, what, detail) violations of the property text on the real results"""
     bad = []
-    tex = [it[1] for it in seq["items"] if it[0] == "t"]
+    tex = [item_expr(it) for it in seq["items"] if it[0] in ("t", "r")]
+    is_re = [it[0] == "r" for it in seq["items"] if it[0] in ("t", "r")]
     st = res["status"]
     for i, e in enumerate(tex):
         want = "rej" if should_reject(e) else "ok"
+        if is_re[i] and st[i] == "rej":
+            continue        # refusing to subscript a parametrised class again satisfies the property
         if st[i] != want:
             bad.append(({"defect": "acceptance", "expr": json.dumps(e)}, f"subscript {e}: expected {want}, real code: {st[i]}", {}))
     ok = res["ok"]
@@ -522,7 +579,7 @@ def spec_types(seq, res, obsv):
             want = doc_le(ea, eb)
             got = bool(res["sub"][a][b])
             if want != got:
-                if has_up(ea) or has_up(eb):
+                if (has_up(ea) or has_up(eb)) and got == doc_le(ea, eb, same_order=False):
                     obsv["upto_pairs_deviating_from_same_order_rule"] = obsv.get("upto_pairs_deviating_from_same_order_rule", 0) + 1
                     continue
                 bad.append(({"defect": "lattice", "a": json.dumps(ea), "b": json.dumps(eb)},
@@ -547,6 +604,10 @@ def spec_types(seq, res, obsv):
             if ent["key"] != ent["cls"]:
                 bad.append(({"defect": "cache_key", "key": json.dumps(ent["key"])},
                             f"cache entry {ent['key']} holds a class describing itself as {ent['cls']}", {}))
+    if any(r and st[i] == "ok" for i, r in enumerate(is_re)) and bad:
+        # a sequence containing an accepted re-subscription: everything that goes wrong afterwards is its effect
+        bad = [({"defect": "resubscription_pollutes_cache", "kind": key["defect"]},
+                "after subscripting an already parametrised class: " + what, det) for (key, what, det) in bad]
     return bad
 
 
@@ -666,7 +727,20 @@ def one_liner(seq):
             return names[e[1]]
         d = {"in": "Port.Direction.INPUT", "out": "Port.Direction.OUTPUT", "inout": "Port.Direction.INOUT"}
         return f"{names[e[1]]}[{src(e[3])}]" if e[2] is None else f"{names[e[1]]}[{src(e[3])},{d[e[2]]}]"
-    return "from cohdl import *; L=[" + ", ".join(src(it[1]) for it in seq["items"] if it[0] == "t" and not should_reject(it[1])) + "]"
+    def par(p):
+        if p[0] == "w":
+            return str(p[1])
+        if p[0] == "a":
+            return f"{src(p[1])},{p[2]}"
+        d = {"in": "Port.Direction.INPUT", "out": "Port.Direction.OUTPUT", "inout": "Port.Direction.INOUT"}
+        return src(p[2]) if p[1] is None else f"{src(p[2])},{d[p[1]]}"
+    parts = []
+    for it in seq["items"]:
+        if it[0] == "t" and not should_reject(it[1]):
+            parts.append(src(it[1]))
+        elif it[0] == "r":
+            parts.append(f"{src(it[1])}[{par(it[2])}]")
+    return "from cohdl import *; L=[" + ", ".join(parts) + "]"
 
 
 def run(ck: common.Check, replay=None):
@@ -684,7 +758,10 @@ def run(ck: common.Check, replay=None):
         "histories quantifier: proved for all sequences over the modelled expression grammar (Models/TyCacheProofs.v); the tie to the "
         "real classes is sampled (corpus + seeded sequences; thorough: all 720 orders of each 6-element set)",
         "documented parameter space = integer widths (DOWNTO); UPTO shapes f[0:n] are modelled as coded and reported as an observation",
-        "re-subscripting an already parametrised class (Signal[BitVector][Bit], BitVector[3][4]) is outside the quantifier and not modelled",
+        "subscripting an already parametrised class (BitVector[3][4], Signal[BitVector][Bit]; std.reg does underlying[arg.width]) is part of "
+        "the histories quantifier: the property text demands that BitVector[4] afterwards is still unrelated to BitVector[3]. Such items are "
+        "judged by the specification (result must be the family's class for the new parameters, or the subscript is refused); they are "
+        "compared with the model (as  base ; family[param]) only when the specification holds - the model's grammar has no polluted classes",
         "views: one root vector object per scenario; array element views are not modelled (Array.__getitem__ returns fresh elements at Python level)",
     ]
     rng = ck.rng
@@ -727,7 +804,7 @@ def run(ck: common.Check, replay=None):
             ck.violation({"defect": "worker_crash"}, "sequence crashed in the real interpreter: " + res["crash"],
                          {"sequence": seq, "trace": res.get("tb")}, no_input=True)
             continue
-        n_t = sum(1 for it in seq["items"] if it[0] == "t")
+        n_t = sum(1 for it in seq["items"] if it[0] in ("t", "r"))
         ck.hist("ops_per_sequence", n_t)
         for it in seq["items"]:
             if it[0] == "t":
@@ -737,6 +814,9 @@ def run(ck: common.Check, replay=None):
                     ck.count("malformed_subscripts")
                 if has_up(e):
                     ck.count("upto_subscripts")
+            elif it[0] == "r":
+                ck.count("resubscriptions")
+                ck.hist("op_kind", "resub:" + it[2][0])
             else:
                 ck.count("view_scenarios")
         for s in res["status"]:
@@ -775,9 +855,14 @@ def run(ck: common.Check, replay=None):
             rep = {"sequence": seq, "what_detail": what, "python": one_liner(seq)}
             rep.update(det)
             ck.violation(key, what, rep)
-        tcases.append(type_case(seq, res))
-        tmeta.append(si)
-        distinct = {json.dumps(it[1]) for it in seq["items"] if it[0] == "t"}
+        re_idx = [k for k, it in enumerate(it2 for it2 in seq["items"] if it2[0] in ("t", "r")) if it[0] == "r"]
+        if re_idx and (any(key["defect"] == "resubscription_pollutes_cache" for key, _, _ in bad)
+                       or any(res["status"][k] != "ok" for k in re_idx)):
+            ck.count("resub_sequences_spec_only")     # the model has no class to compare with
+        else:
+            tcases.append(type_case(seq, res))
+            tmeta.append(si)
+        distinct = {json.dumps(item_expr(it)) for it in seq["items"] if it[0] in ("t", "r")}
         if len(distinct) >= 3 and sum(map(sum, res["sub"])) > len(res["ok"]):
             ck.nontrivial(json.dumps(seq["items"], sort_keys=True))
         if si % 97 == 0:
